@@ -1,5 +1,6 @@
 import Texel.Model.SnapF
 import Texel.Proofs.GenArith
+import Texel.Proofs.GenMathhelp
 import Texel.Model.Small
 /-! # C09 — polygons reaching outside the grid are rejected, never silently moved
 
